@@ -1,0 +1,12 @@
+//go:build verif && verifoverlay
+
+package serf
+
+import "os"
+
+// verifSnapOpen opens the snapshot file exactly as NewSnapshotter does, through the
+// file-system shim that exists only in the verification overlay build
+// (/verif/overlaygen: os.OpenFile -> verifOpenFile, *os.File -> *verifFile).
+func verifSnapOpen(path string) (*verifFile, error) {
+	return verifOpenFile(path, os.O_RDWR|os.O_APPEND|os.O_CREATE, 0644)
+}
